@@ -17,7 +17,7 @@ import json
 import os
 import random
 
-from . import adapter, tlc
+from . import adapter, par, tlc
 from .common import Check, REPO
 
 EOL = {"LF": "\n", "CRLF": "\r\n", "CR": "\r"}
@@ -38,7 +38,7 @@ def strs(tl):
 
 def edit_tags(e):
     tags = {"action:" + e["k"]}
-    if e["k"] != "open":
+    if e["k"] not in ("open", "save", "reopen"):
         te = e["te"]
         if te and e["tl"][-1] == []:
             tags.add("text:endsInBreak")
@@ -88,7 +88,7 @@ def main(tier, seed):
     rnd = random.Random(seed)
 
     # 1. the specification's own laws
-    r = tlc.mc("DocText", "DocText_MC.cfg", required_actions=["DoFull", "DoRange", "DoSplitPair"], timeout=1200)
+    r = tlc.mc("DocText", "DocText_MC.cfg" if tier == "quick" else "DocText_MC_thorough.cfg", required_actions=["DoFull", "DoRange", "DoSplitPair", "Reopen"], timeout=600 if tier == "quick" else 3000)
     ck.add_tlc("DocText_MC", r)
     if not r.ok:
         ck.machinery("DocText_MC violated %s (specification bug)" % r.violated)
@@ -129,6 +129,27 @@ def main(tier, seed):
     ck.note("transition_instances_by_action", kinds)
     ck.note("exhaustive", True)
 
+    # 2b. one edit, then close without saving and re-open: the server must show the file on disk again
+    info = {}
+    n2 = 0
+    reopen_states = [st for st in tlc.dump_states("DocText", "DocText_Gen2.cfg", timeout=3000, info=info,
+                                                  prefilter=lambda t: '"reopen"' in t)]
+    ck.add_tlc("DocText_Gen2", info["result"])
+    step = 1 if tier == "thorough" else 6
+    for i, status, val in par.pmap(reopen_session, reopen_states[::step], item_timeout=120):
+        st = reopen_states[::step][i]
+        n2 += 1
+        ck.count(key=("reopen", repr(st["edit"]["prev"]), repr(st["disk"])))
+        if status != "done":
+            ck.violation({"session:" + status, "action:reopen"}, {"kind": "reopen", "state": st, "detail": val})
+        elif val is not None:
+            ck.violation({"action:reopen", "binding:didClose+didOpen", "prev:" + st["edit"]["prev"]["k"],
+                          "prevtext:" + ("multiline" if st["edit"]["prev"]["te"] else "singleline")} | describe_diff(val[0], val[1]),
+                         {"kind": "reopen", "state": st, "expected": val[0], "observed": val[1]})
+        else:
+            ck.traces += 1
+    ck.note("reopen_sessions", n2)
+
     # 3. edit sequences through the live server
     nsim = 150 if tier == "quick" else 1500
     behs = tlc.simulate("DocText", "DocText_Sim.cfg", num=nsim, depth=9, seed=seed + 1, timeout=900)
@@ -139,6 +160,25 @@ def main(tier, seed):
     # 4. random editor on sample sources, validated by TLC
     trace_validation(ck, rnd, tier)
     return ck.finish()
+
+
+def reopen_session(st):
+    """didOpen, one didChange, didClose (no save), didOpen: returns None if the server shows the disk text."""
+    disk = st["disk"]
+    d = adapter.mkws({"s.f90": render(disk["tl"], disk["te"]).encode()})
+    try:
+        s, c = adapter.mkserver(d)
+        path = os.path.join(d, "s.f90")
+        adapter.did_open(s, c, d, "s.f90")
+        adapter.notify(s, c, "textDocument/didChange", {"textDocument": {"uri": adapter.uri(d, "s.f90")},
+                                                         "contentChanges": [lsp_change(st["edit"]["prev"])]})
+        adapter.notify(s, c, "textDocument/didClose", {"textDocument": {"uri": adapter.uri(d, "s.f90")}})
+        adapter.did_open(s, c, d, "s.f90")
+        got = list(s.workspace[path].contents_split)
+        exp = strs(st["lines"])
+        return None if got == exp else (exp, got)
+    finally:
+        adapter.rmws(d)
 
 
 def run_session(ck, beh, rnd, full_sync=False):
@@ -154,16 +194,33 @@ def run_session(ck, beh, rnd, full_sync=False):
         steps = beh[1:]
         i = 0
         while i < len(steps):
-            k = 1 if full_sync else rnd.choice([1, 1, 2, 3])
-            group = steps[i:i + k]
-            i += k
-            if full_sync:
-                last = group[-1][1]
-                changes = [{"text": render(last["lines"], last["eols"])}]
+            kind = steps[i][1]["edit"]["k"]
+            if kind in ("save", "reopen"):
+                group = steps[i:i + 1]
+                i += 1
+                st1 = group[0][1]
+                changes = [kind]
+                if kind == "save":
+                    with open(path, "w", newline="") as fh:
+                        fh.write(render(st1["lines"], st1["eols"]))
+                    adapter.notify(s, c, "textDocument/didSave", {"textDocument": {"uri": adapter.uri(d, "s.f90")}})
+                else:
+                    adapter.notify(s, c, "textDocument/didClose", {"textDocument": {"uri": adapter.uri(d, "s.f90")}})
+                    adapter.did_open(s, c, d, "s.f90")
+                fo = s.workspace.get(path)
             else:
-                changes = [lsp_change(g[1]["edit"]) for g in group]
-            adapter.notify(s, c, "textDocument/didChange",
-                           {"textDocument": {"uri": adapter.uri(d, "s.f90")}, "contentChanges": changes})
+                k = 1 if full_sync else rnd.choice([1, 1, 2, 3])
+                group = []
+                while i < len(steps) and len(group) < k and steps[i][1]["edit"]["k"] not in ("save", "reopen"):
+                    group.append(steps[i])
+                    i += 1
+                if full_sync:
+                    last = group[-1][1]
+                    changes = [{"text": render(last["lines"], last["eols"])}]
+                else:
+                    changes = [lsp_change(g[1]["edit"]) for g in group]
+                adapter.notify(s, c, "textDocument/didChange",
+                               {"textDocument": {"uri": adapter.uri(d, "s.f90")}, "contentChanges": changes})
             exp = strs(group[-1][1]["lines"])
             got = list(fo.contents_split)
             ck.count(key=("sess", repr(changes), tuple(exp)))
@@ -171,7 +228,7 @@ def run_session(ck, beh, rnd, full_sync=False):
                 tags = set()
                 for g in group:
                     tags |= edit_tags(g[1]["edit"])
-                if full_sync:
+                if full_sync and kind not in ("save", "reopen"):
                     last = group[-1][1]
                     tags = {"action:full"} | ({"text:endsInBreak", "text:multiline"} if last["lines"][-1] == [] and last["eols"] else set())
                 tags |= describe_diff(exp, got) | {"binding:didChange"}
